@@ -125,10 +125,14 @@ def r1_one_impl(rep, ctx):
         rep.check(side(a) == {1} and side(b) == {2}, "C10.R1", "Array._DoOperation:%s" % norm(ast.unparse(g)), "the pair generator gets the left operand's values first and the right operand's second",
                   "the pair generator is built from (%s, %s): operands change sides" % (show(a), show(b)), node=g, fn=afn)
     for c in acalls:
+        if any(isinstance(a, ast.Starred) for a in c.args) or c.keywords:
+            raise AnalysisError("Array._DoOperation: `%s` passes starred / keyword arguments to the operation: which operand stands on which side cannot be read off" % norm(ast.unparse(c))[:80])
         if len(c.args) != 4:
             rep.bad("C10.R1", "Array._DoOperation:%s" % norm(ast.unparse(c)), "operation called with %d arguments" % len(c.args), node=c, fn=afn)
             continue
         q1, q2, v0, v1 = (ares.term(a) for a in c.args)
+        if any(a == ("const", None) for t_ in (q1, q2) for a in alternatives(t_)):
+            raise AnalysisError("Array._DoOperation: a quantity handed to the operation can be None by the definitions that reach the call (a placeholder that is overwritten under a flag): the sides cannot be attributed")
         q1_ok = all(is_empty_q(a) or side(a) == {1} for a in alternatives(q1)) and any(side(a) == {1} for a in alternatives(q1))
         q2_ok = all(is_empty_q(a) or side(a) == {2} for a in alternatives(q2)) and any(side(a) == {2} for a in alternatives(q2))
         # values: elements 0 and 1 of a pair produced by the generator
@@ -555,13 +559,29 @@ def r7_getvalues(rep, ctx):
                   "Array.GetAbstractValue converts %s to %s via %s" % (show(v) if v else None, show(to) if to else None, show(f)), node=c, fn=fn)
     # the unconverted return is guarded by unit None / equal to own unit
     cfg = CFG(fn.node)
+    P_UNIT = ("param", unit_i, "unit")
+    OWN = (("attr", ("field", "_quantity"), "unit"), ("call", ("attr", ("field", "_quantity"), "GetUnit"), (), ()), ("field", "unit"), ("call", ("field", "GetUnit"), (), ()))
+
+    def guard_key(nid):
+        """tests `unit is None` and `unit == <own unit>` (either spelling, either order), as atoms of the path states"""
+        t_ = res.term(cfg.ast[nid])
+        if t_[0] == "op" and t_[1] in ("cmp:Is", "cmp:IsNot") and len(t_[2]) == 2 and set(t_[2]) == {P_UNIT, ("const", None)}:
+            return (("unit-none",), t_[1] == "cmp:IsNot")
+        if t_[0] == "op" and t_[1] in ("cmp:Eq", "cmp:NotEq") and len(t_[2]) == 2 and P_UNIT in t_[2] and any(all(a_ in OWN for a_ in alternatives(x_)) for x_ in t_[2] if x_ != P_UNIT):
+            return (("unit-own",), t_[1] == "cmp:NotEq")
+        return None
+
+    states = None
     for r in cfg.returns():
         node = cfg.ast[r]
         t = res.term(node.value)
         if all(a == ("field", "_value") for a in alternatives(t)):
-            p = getattr(node, "_parent", None)
-            gt_ = show(res.term(p.test), 300) if isinstance(p, ast.If) else ""
-            guarded = isinstance(p, ast.If) and node in p.body and "$unit" in gt_ and "None" in gt_ and ("self._quantity.unit" in gt_ or "GetUnit()" in gt_ or "self.unit" in gt_)
+            # on every path to this return the requested unit was found to be None or the own unit (path states with
+            # the two tests as atoms: `if unit is None or unit == own`, its negation with swapped arms, guard clauses)
+            if states is None:
+                states = cfg.consistent_states(guard_key)
+            asgs = [dict(a_) for a_ in states.get(r, ())]
+            guarded = bool(asgs) and all(d_.get(("unit-none",)) is True or d_.get(("unit-own",)) is True for d_ in asgs)
             rep.check(guarded, "C10.R7", "Array.GetAbstractValue:unconverted-return", "stored values are returned unconverted only when no unit or the own unit is requested",
                       "Array.GetAbstractValue returns the stored values unconverted without testing the requested unit against the own unit", node=node, fn=fn)
 
